@@ -625,7 +625,16 @@ func abbreviate(s string, maxLen int) string {
 	if maxLen <= 1 {
 		return "…"
 	}
-	return s[:maxLen-1] + "…"
+	// Cut on a rune boundary: slicing bytes can split a multi-byte character
+	// and emit invalid UTF-8.
+	cut := 0
+	for i := range s {
+		if i > maxLen-1 {
+			break
+		}
+		cut = i
+	}
+	return s[:cut] + "…"
 }
 
 // stateIcon returns the appropriate icon for a task's state.
